@@ -423,7 +423,21 @@ class BasicBlock(Value):
             # producing %7, then we'll have ``ret None``, and if we want to
             # replace that with a new reference, we can't as the reference to
             # %7 is missing.
-            self.Parent.ReplaceUses(self.__replaceUses)
+            # A replacement value can itself be scheduled for replacement
+            # (a forwarded load whose stored value is another forwarded
+            # load), so follow such chains to the value that survives
+            resolved = {}
+            for ref, new in self.__replaceUses.items():
+                visited = {ref}
+                while (
+                    isinstance(new, Value)
+                    and new.Reference in self.__replaceUses
+                    and new.Reference not in visited
+                ):
+                    visited.add(new.Reference)
+                    new = self.__replaceUses[new.Reference]
+                resolved[ref] = new
+            self.Parent.ReplaceUses(resolved)
 
         if self.__replacements:
             self.__Replace()
